@@ -551,6 +551,9 @@ class Namespace(Evaluatable[Options]):
         return item
 
     def __getattr__(self, key: str) -> Evaluatable:
+        if key == "_members":
+            # not initialised yet: copy and pickle look attributes up before restoring the state
+            raise AttributeError(key)
         try:
             return self[key]
         except KeyError:
